@@ -7,18 +7,19 @@ Whole-tree scan of /repo/src/**/*.rs (comments stripped, `#[cfg(test)] mod .. { 
     (definitions excluded).  Any OTHER function that spawns `git notes --ref=ai <writing verb>` or a
     fast-import stream into refs/notes/ai is a GenError (an unknown raw writer).
   * for each call site: the innermost enclosing fn, the file, and
-      filtered    = the enclosing fn contains the storage-mode match in exactly the recognised shape
-                    (`match effective_storage { Local => strip; Notes => redact; Default => ... }`);
-                    a writer that mentions strip_prompt_messages / messages.clear() /
-                    redact_secrets_from_prompts / effective_prompt_storage / PromptStorageMode in any
-                    other way is a GenError (never a guess);
+      arms        = the storage-mode match of the enclosing fn, one action per mode: a
+                    `match <effective_prompt_storage of this repo> { PromptStorageMode::.. => { .. } .. }`
+                    covering Default/Local/Notes whose arms are a plain strip, a plain redact, empty, or the
+                    redact + CAS-enqueue shape of post_commit, directly followed by serialize + notes_add;
+                    None when the fn does not mention the storage mode; a writer that mentions
+                    strip_prompt_messages / messages.clear() / redact_secrets_from_prompts /
+                    effective_prompt_storage / PromptStorageMode in any other way is a GenError (never a guess);
       src_worklog = the enclosing fn or a same-file helper it calls that returns an AuthorshipLog reads
                     the working log (from_just_working_log / from_working_log_for_commit /
                     read_all_checkpoints / read_initial_attributions): fresh transcripts;
       src_notes   = ... reads existing notes (new_for_base_commit, get_reference_as_authorship_log_v3,
                     remap_note_content_for_target_commit, load_note_contents_for_commit*,
                     note_blob_oids_for_commits, a ref copy/merge): already filtered text.
-  * the arms of the storage-mode match of post_commit as actions;
   * `effective_prompt_storage` (src/config.rs): order of the tests and the two defaults;
   * the `cannot_refetch` table of append_checkpoint (src/git/repo_storage.rs).
 """
@@ -177,55 +178,77 @@ ACTIONS = {"strip": "AStrip", "redact": "ARedact", "keep": "AKeep", "redact_cas"
 
 
 def _parse_mode_match(L, body, fn, rel):
-    """The storage-mode match of a writer, as actions.  `body` is the comment-free text of the fn."""
+    """The storage-mode match of a writer, as one action per mode.  `body` is the comment-free text of the fn.
+    Recognised: `match <effective_prompt_storage of this repo> { PromptStorageMode::A [| PromptStorageMode::B]* =>
+    { <arm> } ... }` covering Default, Local, Notes, every arm being a plain strip, a plain redact, empty, or the
+    redact + CAS-enqueue shape of post_commit; the note must be serialised and written directly after the match."""
     b = _norm(body)
-    if "let effective_storage = Config::get().effective_prompt_storage(&Some(repo.clone()));" not in b:
-        raise L.GenError(f"{rel}: fn {fn}: mentions the prompt-storage mode but `let effective_storage = "
-                         f"Config::get().effective_prompt_storage(..)` not found")
+    eff = "Config::get().effective_prompt_storage(&Some(repo.clone()))"
     i = b.find("match effective_storage {")
-    if i < 0:
-        raise L.GenError(f"{rel}: fn {fn}: `match effective_storage {{` not found")
-    j = _match_brace(b, b.index("{", i))
-    mt = b[b.index("{", i) + 1:j - 1].strip()
-    arms = {}
+    if i >= 0:
+        if f"let effective_storage = {eff};" not in b[:i]:
+            raise L.GenError(f"{rel}: fn {fn}: `let effective_storage = {eff}` not found before the match")
+    else:
+        i = b.find(f"match {eff} {{")
+        if i < 0:
+            raise L.GenError(f"{rel}: fn {fn}: mentions the prompt-storage mode but no match on "
+                             f"effective_prompt_storage of this repository was found")
+    if b.count("effective_prompt_storage") != 1:
+        raise L.GenError(f"{rel}: fn {fn}: effective_prompt_storage is consulted more than once")
+    ob = b.index("{", i)        # neither scrutinee form contains a brace
+    j = _match_brace(b, ob)
+    mt = b[ob + 1:j - 1].strip()
+    bodies = {}
     pos = 0
     while pos < len(mt):
-        m = re.match(r"\s*PromptStorageMode::(\w+) => \{", mt[pos:])
+        m = re.match(r"\s*((?:PromptStorageMode::\w+(?: \| )?)+) => \{", mt[pos:])
         if not m:
             raise L.GenError(f"{rel}: fn {fn}: unrecognised arm at {mt[pos:pos + 60]!r}")
         st = pos + m.end() - 1
         en = _match_brace(mt, st)
-        arms[m.group(1)] = mt[st + 1:en - 1].strip()
+        for mode in re.findall(r"PromptStorageMode::(\w+)", m.group(1)):
+            if mode in bodies:
+                raise L.GenError(f"{rel}: fn {fn}: mode {mode} has two arms")
+            bodies[mode] = mt[st + 1:en - 1].strip()
         pos = en
         while pos < len(mt) and mt[pos] in ", ":
             pos += 1
-    if sorted(arms) != ["Default", "Local", "Notes"]:
-        raise L.GenError(f"{rel}: fn {fn}: arms {sorted(arms)} are not Default/Local/Notes")
+    if sorted(bodies) != ["Default", "Local", "Notes"]:
+        raise L.GenError(f"{rel}: fn {fn}: arms {sorted(bodies)} are not Default/Local/Notes")
     P = "&mut authorship_log.metadata.prompts"
     strip = f"strip_prompt_messages({P});"
-    if arms["Local"] != strip:
-        raise L.GenError(f"{rel}: fn {fn}: Local arm is not a plain strip: {arms['Local']!r}")
-    if not re.fullmatch(r"let count = redact_secrets_from_prompts\(" + re.escape(P) + r"\); if count > 0 \{ debug_log\(.*\); \}",
-                        arms["Notes"]):
-        raise L.GenError(f"{rel}: fn {fn}: Notes arm is not a plain redact: {arms['Notes']!r}")
-    d = arms["Default"]
-    m = re.fullmatch(
+    redact_re = (r"(?:let count = redact_secrets_from_prompts\(" + re.escape(P) + r"\); if count > 0 \{ debug_log\(.*\); \}"
+                 r"|redact_secrets_from_prompts\(" + re.escape(P) + r"\);)")
+    cas_re = (
         r"let context = ApiContext::new\(None\); let client = ApiClient::new\(context\); "
         r"let using_custom_api = Config::get\(\)\.api_base_url\(\) != crate::config::DEFAULT_API_BASE_URL; "
         r"let should_enqueue_cas = client\.is_logged_in\(\) \|\| using_custom_api; "
         r"if should_enqueue_cas \{ let redaction_count = redact_secrets_from_prompts\(" + re.escape(P) + r"\); "
         r"if redaction_count > 0 \{ debug_log\(.*?\); \} "
         r"if let Err\(e\) = enqueue_prompt_messages_to_cas\(repo, " + re.escape(P) + r"\) \{ debug_log\(.*?\); "
-        + re.escape(strip) + r" \} \} else \{ " + re.escape(strip) + r" \}", d)
-    if not m:
-        raise L.GenError(f"{rel}: fn {fn}: Default arm has an unrecognised shape")
+        + re.escape(strip) + r" \} \} else \{ " + re.escape(strip) + r" \}")
+
+    def classify(mode):
+        d = bodies[mode]
+        if d == strip:
+            return ("strip", "strip")
+        if re.fullmatch(redact_re, d):
+            return ("redact", "redact")
+        if d == "":
+            return ("keep", "keep")
+        if re.fullmatch(cas_re, d):
+            return ("redact_cas", "strip")      # (logged in / custom API, otherwise); a failed enqueue strips
+        raise L.GenError(f"{rel}: fn {fn}: {mode} arm has an unrecognised shape: {d[:80]!r}")
+
+    loc, nts, dfl = classify("Local"), classify("Notes"), classify("Default")
+    if loc[0] == "redact_cas" or nts[0] == "redact_cas":
+        raise L.GenError(f"{rel}: fn {fn}: CAS upload outside the Default arm")
     # after the match nothing may put messages back: the next statements must be serialize + notes_add
     rest = b[j:]
     if not re.match(r"\s*let authorship_json = authorship_log \.serialize_to_string\(\) "
                     r"\.map_err\(.*?\)\?; (?:crate::git::refs::)?notes_add\(repo, &?\w+, &authorship_json\)\?;", rest):
         raise L.GenError(f"{rel}: fn {fn}: the note is not written directly after the storage-mode match")
-    return {"local": "strip", "notes": "redact", "default_in": "redact_cas", "default_out": "strip",
-            "cas_failure": "strip"}
+    return {"local": loc[0], "notes": nts[0], "default_in": dfl[0], "default_out": dfl[1], "cas_failure": "strip"}
 
 
 def _cas_success_clears(L):
@@ -282,10 +305,21 @@ def _cannot_refetch(L):
     return rules, default
 
 
+def _arms_coq(a):
+    if a is None:
+        return "None"
+    return "(Some (mkArms " + " ".join(ACTIONS[a[k]] for k in ("local", "notes", "default_in", "default_out", "cas_failure")) + "))"
+
+
+def _arms_txt(a):
+    if a is None:
+        return "none"
+    return "local:{local} notes:{notes} default:{default_in}/{default_out}".format(**a)
+
+
 def generate(L):
     src_root = os.path.join(L.REPO, "src")
     writers = []
-    mode_arms = None
     for root, dirs, files in os.walk(src_root):
         dirs.sort()
         for fn in sorted(files):
@@ -323,22 +357,13 @@ def generate(L):
                         helper_text += s[hsp[2]:hsp[3]]
                 scope = body + helper_text
                 mentions = [mk for mk in FILTER_MARKERS if mk in scope]
-                filtered = False
-                if mentions:
-                    arms = _parse_mode_match(L, body, fname, rel)
-                    if mode_arms is not None and arms != mode_arms:
-                        raise L.GenError("two writers with different storage-mode matches")
-                    mode_arms = arms
-                    filtered = True
+                arms = _parse_mode_match(L, body, fname, rel) if mentions else None
                 prim = PRIMS[m.group(1)]
                 src_w = any(mk in scope for mk in WORKLOG_MARKERS)
                 src_n = any(mk in scope for mk in NOTES_MARKERS) or prim == 3
-                writers.append((rel, fname, m.group(1), prim, filtered, src_w, src_n))
+                writers.append((rel, fname, m.group(1), prim, arms, src_w, src_n))
     if not writers:
         raise L.GenError("no note writers found at all")
-    if mode_arms is None:
-        # no writer applies the storage-mode match any more: nothing is filtered, say so in the tables
-        mode_arms = {"local": "keep", "notes": "keep", "default_in": "keep", "default_out": "keep", "cas_failure": "keep"}
     _cas_success_clears(L)
     excl, inc_empty_dflt, inc_match_dflt, fallback = _effective(L)
     rules, default = _cannot_refetch(L)
@@ -347,19 +372,18 @@ def generate(L):
         "Inductive action := AStrip | ARedact | AKeep | ARedactThenCas.",
         "Inductive smode := MDefault | MLocal | MNotes.",
         "Inductive refetch_rule := RKeep | RDrop | RDropIfMeta (key : list N).",
-        "Record writer := mkWriter { w_file : list N; w_fn : list N; w_prim : N; w_filtered : bool;",
+        "(* the storage-mode match of a writer: what it does to the prompt records in each effective mode *)",
+        "Record arms := mkArms { a_local : action; a_notes : action; a_default_in : action; a_default_out : action;",
+        "                        a_cas_failure : action }.",
+        "Record writer := mkWriter { w_file : list N; w_fn : list N; w_prim : N; w_arms : option arms;",
         "                           w_src_worklog : bool; w_src_notes : bool }.",
-        "(* w_prim: 0 notes_add, 1 notes_add_batch, 2 notes_add_blob_batch, 3 ref-level merge/copy *)",
+        "(* w_prim: 0 notes_add, 1 notes_add_batch, 2 notes_add_blob_batch, 3 ref-level merge/copy;",
+        "   w_arms = None: the writer does not consult the prompt-storage mode at all *)",
         "Definition note_writers : list writer :=\n  ["
         + ";\n   ".join(
-            f"mkWriter {_name(L, rel)} {_name(L, fn)} {prim} {L.coq_bool(flt)} {L.coq_bool(sw)} {L.coq_bool(sn)}"
-            f"\n     (* {rel} :: {fn} -> {call}; filtered={flt}, worklog={sw}, notes={sn} *)"
-            for rel, fn, call, prim, flt, sw, sn in writers) + "].",
-        f"Definition arm_local : action := {ACTIONS[mode_arms['local']]}.",
-        f"Definition arm_notes : action := {ACTIONS[mode_arms['notes']]}.",
-        f"Definition arm_default_logged_in : action := {ACTIONS[mode_arms['default_in']]}.",
-        f"Definition arm_default_logged_out : action := {ACTIONS[mode_arms['default_out']]}.",
-        f"Definition arm_cas_failure : action := {ACTIONS[mode_arms['cas_failure']]}.",
+            f"mkWriter {_name(L, rel)} {_name(L, fn)} {prim} {_arms_coq(arms)} {L.coq_bool(sw)} {L.coq_bool(sn)}"
+            f"\n     (* {rel} :: {fn} -> {call}; mode match={_arms_txt(arms)}, worklog={sw}, notes={sn} *)"
+            for rel, fn, call, prim, arms, sw, sn in writers) + "].",
         "Definition cas_success_clears : bool := true.",
         f"Definition eff_excluded : smode := M{excl}.",
         f"Definition eff_unparsable_global : smode := M{inc_empty_dflt}.",
